@@ -55,7 +55,7 @@ def inbound_chains(r):
 def retry_policy(r):
     hs = []
     if r.random() < 0.5:
-        hs.append(C("Build_header_pb", "kitexRetryMethods", C("HSString", C("SMExact", r.choice(["Echo", "Echo,Ping", "Ping"])))))
+        hs.append(C("Build_header_pb", "kitexRetryMethods", C("HSString", C("SMExact", r.choice(["Echo", "Echo,Ping", "Ping", ",".join("M%d" % i for i in range(18))])))))
     if r.random() < 0.5:
         hs.append(C("Build_header_pb", "kitexRetryErrorRate", C("HSString", C("SMExact", r.choice(["0.1", "0.25", "0.3", "0.5", "abc"])))))
     return Some(C("Build_retry_pb", "5xx", Some(r.choice([0, 1, 2, 3, 5])), r.choice([None, Some(Z(r.choice([10, 100, 1500, 250]) * MS))]), None, L(hs),
